@@ -28,6 +28,28 @@ func (v *Val) UnmarshalMsg(b []byte) ([]byte, error) {
 	return nil, nil
 }
 
+// ValueBox is a caller-owned value object that is re-used: most inserts get a fresh Val, every third one gets the box's
+// one *util.SecureSerializableValue (the library's own value type) with its buffer refilled in place - the value object
+// and its bytes stay the caller's after Insert returned, so nothing the trie keeps may refer to them.
+type ValueBox struct {
+	ssv   util.SecureSerializableValue
+	calls int
+	Used  int64
+}
+
+func (b *ValueBox) V(v []byte) util.MPTSerializable {
+	b.calls++
+	if b.calls%3 != 0 || len(v) == 0 {
+		return &Val{B: v}
+	}
+	for i := range b.ssv.Buffer {
+		b.ssv.Buffer[i] = 0xee
+	}
+	b.ssv.Buffer = append(b.ssv.Buffer[:0], v...)
+	b.Used++
+	return &b.ssv
+}
+
 // Scratch is a caller-owned path buffer that is re-used for every call, the way a caller with a scratch buffer would:
 // the bytes of an earlier path are overwritten by the next one, so nothing the trie keeps may point into it.
 type Scratch struct{ b [80]byte }
